@@ -27,6 +27,7 @@ META = {
                      "std contracts of Vec::remove / Index / Option::unwrap", "rustc's #[track_caller] / `!` classification of callees"],
 }
 META["decides"] += " (R-3: a budgeted edge counts as decrementing only if every call site on it decrements; closures built in the cycle carry their creator's budget; R-2 discharges small-constant + Vec::len() overflow asserts.)"
+META["decides"] += " R-3 also covers every call cycle OUTSIDE the decoders (encoders, Clone / PartialEq / Ord impls, helpers; std trait calls on &T / Option<T> / Vec<T> count as calls of the crate's impl for T): after removing the edges on which every call hands on a strict part of the caller's receiver the component must be acyclic (depth bounded by the nesting of the value)."
 
 ASV = "common::AsCborValue"
 READ = "common::read_to_value"
